@@ -74,7 +74,11 @@ for root, _, files in ([] if plain else os.walk(out)):
             return '\n'.join(lines)
         s = re.sub(r'(?m)^(\s*)use std::time::\{([^;]*)\};', split_time, s)
         s = re.sub(r'\bstd::time::Instant\b', 'simctx::time::Instant', s)
-        s = re.sub(r'\bstd::thread::(spawn|scope|sleep|yield_now|current|park|JoinHandle|Builder|ThreadId)\b', r'shuttle::thread::\1', s)
+        # sleep / yield_now: the simulator's (usable outside a simulated run too); the rest: shuttle's
+        s = re.sub(r'\bstd::thread::(sleep|yield_now)\b', r'simctx::thread::\1', s)
+        s = re.sub(r'\bstd::thread::(spawn|scope|current|park|JoinHandle|Builder|ThreadId)\b', r'shuttle::thread::\1', s)
+        if re.search(r'(?m)^\s*use std::thread;', s):
+            s = re.sub(r'(?<![\w:])thread::(sleep|yield_now)\b', r'simctx::thread::\1', s)
         s = re.sub(r'(?m)^(\s*)use std::thread;', r'\1use shuttle::thread;', s)
         # thread_local! becomes the simulator's model of thread-locals (sim/simctx/src/tls.rs):
         # one value per THREAD IDENTITY, which concurrently live tasks never share and which
